@@ -33,12 +33,15 @@ CONSTANTS Scenarios,   \* names of initial heaps
           MaxFields,   \* number of field variables (f, g, h)
           AllowAlias,  \* "all" | "guard": are the known aliasing patterns P1/P2/P3 excluded?
           TransVs, ScaleFs, RotKs, RotRefs,   \* geometry arguments (3-sequences of rationals, cut to ndim)
+          RotPairs,    \* ordered axis pairs offered to rotate90
+          Rich,        \* TRUE: every cell index / range / block / target is offered; FALSE: one representative per axis
+          LastFresh,   \* TRUE: the last call of a bounded history binds its result to a fresh variable only
           PadSpecs,    \* set of <<cells below, cells above, mode>>
           Masks,       \* bit patterns offered to the validity setter
           Nums         \* integers for field * number and constant updates
 
-VARIABLES heap, roots, hist
-vars == <<heap, roots, hist>>
+VARIABLES heap, roots, hist, viol
+vars == <<heap, roots, hist, viol>>
 Last == hist[Len(hist)]
 
 (* the index maps of FieldAlg.tla (selection, padding, resampling) are reused, not copied *)
@@ -123,7 +126,7 @@ FieldRoots(h, rts) == {v \in DOMAIN rts : h[rts[v]].k = "field"}
 FreshVar(rts, x) == LET free == {i \in 1 .. MaxFields : FVseq[i] \notin DOMAIN rts}
                     IN IF free # {} THEN FVseq[CHOOSE i \in free : \A j \in free : i <= j]
                        ELSE FVseq[(IdxOfVar(x) % MaxFields) + 1]
-Dsts(rts, x) == {x, FreshVar(rts, x)}
+Dsts(rts, x) == IF LastFresh /\ Len(hist) = MaxDepth THEN {FreshVar(rts, x)} ELSE {x, FreshVar(rts, x)}
 SetRoot(rts, v, o) == [w \in DOMAIN rts \cup {v} |-> IF w = v THEN o ELSE rts[w]]
 GC(h, rts) == Restrict(h, Reach(h, {rts[v] : v \in DOMAIN rts}))
 Target(h, rts, x, tg) ==
@@ -321,15 +324,17 @@ InModel(h, rts, c) ==
                            (* two vector fields with different labels: no property states whose labels win *)
                            /\ (fo.nv = go.nv => fo.lab = go.lab /\ fo.map = go.map)
                            /\ (SameMeshDeep(h, o, rts[c.y]) \/ ~SameBox(h, o, rts[c.y]))
-                           /\ (fo.vx /\ go.vx => (IF c.op = "mul" THEN MaxAbs(fo.arr) * MaxAbs(go.arr) ELSE MaxAbs(fo.arr) + MaxAbs(go.arr)) <= 1000000)
-                [] c.op = "mulnum" -> fo.vx => MaxAbs(fo.arr) * Abs(c.a.c) <= 1000000
+                           /\ (fo.vx /\ go.vx => LET big == IF c.op = "mul" THEN 30000 ELSE 500000000 IN MaxAbs(fo.arr) <= big /\ MaxAbs(go.arr) <= big)   \* 32-bit integers in TLC
+                [] c.op = "mulnum" -> fo.vx => (MaxAbs(fo.arr) <= 100000000 /\ Abs(c.a.c) <= 10)
                 [] c.op = "comp" -> fo.lab # <<>> /\ c.a.c \in 1 .. fo.nv
                 [] c.op = "lshift" ->
                       /\ c.y \in DOMAIN rts /\ IsF(h, rts[c.y])
-                      /\ (SameMeshDeep(h, o, rts[c.y]) \/ ~SameBox(h, o, rts[c.y]))
+                      (* << compares the meshes exactly (==), + and * with a tolerance: two mesh OBJECTS that are equal only up to *)
+                      (* rounding (one of them rotated, read from a text file, ...) are outside what the model decides for <<      *)
+                      /\ (fo.mesh = h[rts[c.y]].mesh \/ ~SameBox(h, o, rts[c.y]))
                       /\ fo.nv + h[rts[c.y]].nv <= 4
                 [] c.op = "diff" -> c.a.d \in 1 .. nd
-                [] c.op = "setvalid" -> c.a.kind = "norm" => fo.vx
+                [] c.op = "setvalid" -> (c.a.kind = "norm" => fo.vx) /\ (c.a.kind = "array" => Len(c.a.mask) = Len(fo.valid))
                 [] c.op = "mutatevalid" -> c.a.cell \in DOMAIN fo.valid
                 [] c.op \in UpdateOps -> TRUE
                 [] c.op = "selplane" -> nd >= 2 /\ c.a.d \in 1 .. nd /\ c.a.j \in 0 .. (n[c.a.d] - 1)
@@ -341,7 +346,7 @@ InModel(h, rts, c) ==
                 [] c.op = "h5" -> TRUE
                 [] c.op = "xarray" -> FM(h, o).sub = <<>> /\ AllTrue(fo.valid)
                 [] c.op = "vtk" -> nd = 3 /\ MetricXYZ(FR(h, o))
-                [] c.op = "ovf" -> nd = 3 /\ MetricXYZ(FR(h, o)) /\ AllTrue(fo.valid)
+                [] c.op = "ovf" -> nd = 3 /\ MetricXYZ(FR(h, o)) /\ AllTrue(fo.valid) /\ fo.nv > 1     \* C09 states the labels of vector fields only
                 [] OTHER -> FALSE
 
 (* the state after the call; only evaluated when InModel *)
@@ -369,14 +374,14 @@ Apply(h, rts, c) ==
            Bound(AllocF(h, LAMBDA fid : [h[o] EXCEPT !.vo = fid, !.nv = 1, !.arr = Component(@, c.a.c), !.lab = <<>>, !.map = <<>>, !.mx = TRUE]), rts, c.dst)
      [] c.op = "lshift" ->
            LET p == rts[c.y]  fo == h[o]  go == h[p]  lab == StackLab(fo, go) IN
-           IF ~SameMeshDeep(h, o, p) THEN Rej(h, rts)
+           IF fo.mesh # go.mesh THEN Rej(h, rts)
            ELSE Bound(AllocF(h, LAMBDA fid : DFld(fo.mesh, fo.nv + go.nv, IF fo.vx /\ go.vx THEN Stack(fo.arr, go.arr) ELSE [k \in DOMAIN fo.arr |-> ZeroVec(fo.nv + go.nv)],
                                                   AndArr(fo.valid, go.valid), fo.shape, lab, StackMap(fo, go, FR(h, o).dims), fo.vx /\ go.vx, fo.mx /\ go.mx, fid)), rts, c.dst)
      [] c.op = "diff" ->
            Bound(AllocF(h, LAMBDA fid : [h[o] EXCEPT !.vo = fid, !.vx = FALSE, !.arr = [k \in DOMAIN @ |-> ZeroVec(h[o].nv)]]), rts, c.dst)
      [] c.op = "setvalid" ->
            LET fo == h[o]
-               mask == CASE c.a.kind = "array" -> MaskOf(c.a.bits, Len(fo.valid))
+               mask == CASE c.a.kind = "array" -> c.a.mask
                          [] c.a.kind = "none"  -> [k \in DOMAIN fo.valid |-> TRUE]
                          [] c.a.kind = "norm"  -> [k \in DOMAIN fo.valid |-> \E cc \in 1 .. fo.nv : fo.arr[k][cc] # 0]
            IN [heap |-> [h EXCEPT ![o].valid = mask, ![o].vo = o], roots |-> rts, outcome |-> "ok"]
@@ -411,84 +416,6 @@ AliasP3 == /\ Last.op \in GeoOps /\ Last.ip /\ Last.outcome = "ok"
            /\ LET o == GeoTarget IN
                  \E m \in MeshesOf(heap) : m # C13G!TargetMesh(heap, o) /\ SeqRange(heap[m].sub) \cap C13G!MovedRegs(heap, o) # {}
 AliasGuard == AllowAlias = "all" \/ (C13G!AliasGuard /\ ~AliasP3)
-
-(* ---- the actions: one named action per public call ------------------------------------------- *)
-En(name) == name \in Acts /\ Len(hist) <= MaxDepth
-Do(c) == /\ InModel(heap, roots, c)
-         /\ \E r \in {TLCEval(Apply(heap, roots, c))} :       \* evaluated once, eagerly (TLC keeps function constructors lazy)
-               /\ heap' = r.heap
-               /\ roots' = r.roots
-               /\ hist' = Append(hist, Done(c, r.outcome))
-         /\ AliasGuard'
-FR0 == FieldRoots(heap, roots)
-NDx(x) == Len(FN(heap, roots[x]))
-GeoVars == DOMAIN roots
-TgND(x, tg) == RegND(OwnRegion(heap, Target(heap, roots, x, tg)))
-CopyDst(x, tg) == LET t == Target(heap, roots, x, tg) IN IF IsR(heap, t) THEN {"r"} ELSE IF IsM(heap, t) THEN {"m"} ELSE Dsts(roots, x)
-Tgs(x) == IF IsF(heap, roots[x]) THEN {"mesh", "region"} ELSE IF IsM(heap, roots[x]) THEN {"self", "region"} ELSE {"self"}
-
-Translate == En("Translate") /\ \E x \in GeoVars : \E tg \in Tgs(x), v \in TransVs, ip \in BOOLEAN : \E dst \in (IF ip THEN {x} ELSE CopyDst(x, tg)) :
-                Do(MkCall("translate", x, "", dst, tg, ip, [v |-> Cut(v, TgND(x, tg))]))
-Scale     == En("Scale") /\ \E x \in GeoVars : \E tg \in Tgs(x), s \in ScaleFs, ip \in BOOLEAN : \E dst \in (IF ip THEN {x} ELSE CopyDst(x, tg)) :
-                Do(MkCall("scale", x, "", dst, tg, ip, [s |-> Cut(s, TgND(x, tg)), ref |-> <<>>]))
-AxisPairs(nd) == {p \in (1 .. nd) \X (1 .. nd) : p[1] # p[2]}
-MeshRotate90 == En("MeshRotate90") /\ \E x \in GeoVars : \E tg \in Tgs(x), k \in RotKs, ip \in BOOLEAN : \E dst \in (IF ip THEN {x} ELSE CopyDst(x, tg)) :
-                \E p \in AxisPairs(TgND(x, tg)) :
-                   Do(MkCall("rotate90", x, "", dst, tg, ip, [a |-> p[1], b |-> p[2], k |-> k, ref |-> <<>>]))
-FieldRotate90 == En("FieldRotate90") /\ \E x \in FR0 : \E k \in RotKs, ref \in RotRefs, ip \in BOOLEAN : \E dst \in (IF ip THEN {x} ELSE Dsts(roots, x)) :
-                \E p \in AxisPairs(NDx(x)) :
-                   Do(MkCall("rotate90", x, "", dst, "self", ip, [a |-> p[1], b |-> p[2], k |-> k, ref |-> Cut(ref, NDx(x))]))
-MkField   == En("MkField") /\ \E x \in DOMAIN roots : IsM(heap, roots[x]) /\ \E nv \in {1, Len(heap[roots[x]].n)}, dst \in Dsts(roots, "f") :
-                Do(MkCall("mkfield", x, "", dst, "self", FALSE, [nv |-> nv, p |-> 3]))
-Neg       == En("Neg") /\ \E x \in FR0 : \E dst \in Dsts(roots, x) : Do(MkCall("neg", x, "", dst, "self", FALSE, NoA))
-(* `+f` is modelled with f = +f only: whether the library returns the operand itself (documented; known *)
-(* finding of C08) or a copy is then not observable in the object graph                                 *)
-Pos       == En("Pos") /\ \E x \in FR0 : Do(MkCall("pos", x, "", x, "self", FALSE, NoA))
-Abs_      == En("Abs") /\ \E x \in FR0 : \E dst \in Dsts(roots, x) : Do(MkCall("abs", x, "", dst, "self", FALSE, NoA))
-Add       == En("Add") /\ \E x \in FR0, y \in FR0 : \E dst \in Dsts(roots, x) : Do(MkCall("add", x, y, dst, "self", FALSE, NoA))
-Mul       == En("Mul") /\ \E x \in FR0, y \in FR0 : \E dst \in Dsts(roots, x) : Do(MkCall("mul", x, y, dst, "self", FALSE, NoA))
-MulNum    == En("MulNum") /\ \E x \in FR0, cc \in Nums : \E dst \in Dsts(roots, x) : Do(MkCall("mulnum", x, "", dst, "self", FALSE, [c |-> cc]))
-Comp      == En("Comp") /\ \E x \in FR0 : \E cc \in 1 .. heap[roots[x]].nv, dst \in Dsts(roots, x) : Do(MkCall("comp", x, "", dst, "self", FALSE, [c |-> cc]))
-LShift    == En("LShift") /\ \E x \in FR0, y \in FR0 : \E dst \in Dsts(roots, x) : Do(MkCall("lshift", x, y, dst, "self", FALSE, NoA))
-Diff      == En("Diff") /\ \E x \in FR0 : \E d \in 1 .. NDx(x), dst \in Dsts(roots, x) : Do(MkCall("diff", x, "", dst, "self", FALSE, [d |-> d]))
-SetValidArray == En("SetValidArray") /\ \E x \in FR0, b \in Masks : Do(MkCall("setvalid", x, "", x, "self", TRUE, [kind |-> "array", bits |-> b]))
-SetValidNorm  == En("SetValidNorm") /\ \E x \in FR0 : Do(MkCall("setvalid", x, "", x, "self", TRUE, [kind |-> "norm", bits |-> 0]))
-SetValidNone  == En("SetValidNone") /\ \E x \in FR0 : Do(MkCall("setvalid", x, "", x, "self", TRUE, [kind |-> "none", bits |-> 0]))
-MutateValid   == En("MutateValid") /\ \E x \in FR0 : \E k \in {1, Len(heap[roots[x]].valid)} : Do(MkCall("mutatevalid", x, "", x, "self", TRUE, [cell |-> k]))
-UpdateConst   == En("UpdateConst") /\ \E x \in FR0, cc \in Nums : Do(MkCall("updateconst", x, "", x, "self", TRUE, [c |-> cc]))
-SetArray      == En("SetArray") /\ \E x \in FR0 : Do(MkCall("setarray", x, "", x, "self", TRUE, [p |-> 5]))
-SelPlane  == En("SelPlane") /\ \E x \in FR0 : \E d \in 1 .. NDx(x), dst \in Dsts(roots, x) : \E j \in 0 .. (FN(heap, roots[x])[d] - 1) :
-                Do(MkCall("selplane", x, "", dst, "self", FALSE, [d |-> d, j |-> j]))
-SelRange  == En("SelRange") /\ \E x \in FR0 : \E d \in 1 .. NDx(x), dst \in Dsts(roots, x) : \E j1, j2 \in 0 .. (FN(heap, roots[x])[d] - 1) :
-                /\ j2 - j1 + 1 < FN(heap, roots[x])[d]
-                /\ Do(MkCall("selrange", x, "", dst, "self", FALSE, [d |-> d, j1 |-> j1, j2 |-> j2]))
-GetSub    == En("GetSub") /\ \E x \in FR0 : \E s \in DOMAIN FM(heap, roots[x]).sub, dst \in Dsts(roots, x) :
-                Do(MkCall("getsub", x, "", dst, "self", FALSE, [s |-> s]))
-(* blocks: the first cell, the last cell, everything but the first layer of every axis *)
-Blocks(n) == {<<[d \in DOMAIN n |-> 0], [d \in DOMAIN n |-> 0]>>, <<[d \in DOMAIN n |-> n[d] - 1], [d \in DOMAIN n |-> n[d] - 1]>>,
-              <<[d \in DOMAIN n |-> IF n[d] > 1 THEN 1 ELSE 0], [d \in DOMAIN n |-> n[d] - 1]>>}
-GetRegion == En("GetRegion") /\ \E x \in FR0 : \E bl \in Blocks(FN(heap, roots[x])), dst \in Dsts(roots, x) :
-                Do(MkCall("getregion", x, "", dst, "self", FALSE, [a |-> bl[1], b |-> bl[2]]))
-Pad       == En("Pad") /\ \E x \in FR0 : \E d \in 1 .. NDx(x), ps \in PadSpecs, dst \in Dsts(roots, x) :
-                /\ ProdSeq(FN(heap, roots[x])) <= 12
-                /\ Do(MkCall("pad", x, "", dst, "self", FALSE, [d |-> d, l |-> ps[1], r |-> ps[2], mode |-> ps[3]]))
-Resample  == En("Resample") /\ \E x \in FR0 : \E dst \in Dsts(roots, x) : Do(MkCall("resample", x, "", dst, "self", FALSE, [n |-> FN(heap, roots[x])]))
-H5        == En("H5") /\ \E x \in FR0 : \E dst \in Dsts(roots, x) : Do(MkCall("h5", x, "", dst, "self", FALSE, NoA))
-Ovf       == En("Ovf") /\ \E x \in FR0 : \E dst \in Dsts(roots, x) : Do(MkCall("ovf", x, "", dst, "self", FALSE, NoA))
-Vtk       == En("Vtk") /\ \E x \in FR0 : \E dst \in Dsts(roots, x) : Do(MkCall("vtk", x, "", dst, "self", FALSE, NoA))
-Xarray    == En("Xarray") /\ \E x \in FR0 : \E dst \in Dsts(roots, x) : Do(MkCall("xarray", x, "", dst, "self", FALSE, NoA))
-
-Init == \E sc \in Scenarios :
-          /\ heap = ScenarioHeap(sc).h
-          /\ roots = ScenarioHeap(sc).r
-          /\ hist = <<Done(MkCall("init", sc, "", "", "self", FALSE, NoA), "ok")>>
-Next == \/ Translate \/ Scale \/ MeshRotate90 \/ FieldRotate90 \/ MkField
-        \/ Neg \/ Pos \/ Abs_ \/ Add \/ Mul \/ MulNum \/ Comp \/ LShift \/ Diff
-        \/ SetValidArray \/ SetValidNorm \/ SetValidNone \/ MutateValid \/ UpdateConst \/ SetArray
-        \/ SelPlane \/ SelRange \/ GetSub \/ GetRegion \/ Pad \/ Resample
-        \/ H5 \/ Ovf \/ Vtk \/ Xarray
-Spec == Init /\ [][Next]_vars
-DF_Depth == TLCGet("level") <= MaxDepth + 2
 
 (* ================================================================================================ *)
 (* the clauses.  State clauses take a heap; step clauses take the state before (h, rts), the state   *)
@@ -568,22 +495,26 @@ P_Cellwise(h, rts, h2, rts2, c) ==
 (* cell centres and point lookup with exact rationals, independently of the index maps used by Apply.       *)
 PadSrcIdx(mode, t, n) == IF 0 <= t /\ t < n THEN t ELSE CASE mode = "constant" -> -1 [] mode = "edge" -> Clip(t, 0, n - 1) [] mode = "wrap" -> t % n
 PosAgree(so, rs, ns, go, rr, nr, c, ref) ==
+   LET cs == [d \in DOMAIN ns |-> CellR(rs, ns, d)]          \* cell sizes of the source
+       cr == [d \in DOMAIN nr |-> CellR(rr, nr, d)]          \* ... of the result
+       xsel == IF c.op = "selplane" THEN RAdd(rs.lo[c.a.d], RMul(cs[c.a.d], <<2 * c.a.j + 1, 2>>)) ELSE RZero
+       ca == IF c.op = "rotate90" /\ so.nv > 1 THEN CompAt(so, rs.dims, c.a.a) ELSE 0
+       cb == IF c.op = "rotate90" /\ so.nv > 1 THEN CompAt(so, rs.dims, c.a.b) ELSE 0
+   IN
    \A kk \in 1 .. ProdSeq(nr) :
       LET i  == Unflat(nr, kk - 1)
-          p  == CentreR(rr, nr, i)
-          ps == CASE c.op = "selplane" -> FA!InsertAt(p, c.a.d, RAdd(rs.lo[c.a.d], RMul(CellR(rs, ns, c.a.d), <<2 * c.a.j + 1, 2>>)))
+          p  == [d \in DOMAIN nr |-> RAdd(rr.lo[d], RMul(cr[d], <<2 * i[d] + 1, 2>>))]
+          ps == CASE c.op = "selplane" -> FA!InsertAt(p, c.a.d, xsel)
                   [] c.op = "rotate90" -> RotPoint(p, c.a.a, c.a.b, 0 - c.a.k, ref)
                   [] OTHER -> p
-          raw == [d \in DOMAIN ns |-> RFloor(RDiv(RSub(ps[d], rs.lo[d]), CellR(rs, ns, d)))]    \* may lie outside for padding
+          raw == [d \in DOMAIN ns |-> RFloor(RDiv(RSub(ps[d], rs.lo[d]), cs[d]))]    \* may lie outside for padding
           inside == \A d \in DOMAIN ns : 0 <= raw[d] /\ raw[d] < ns[d]
           j  == IF c.op = "pad" THEN [d \in DOMAIN ns |-> IF d = c.a.d THEN PadSrcIdx(c.a.mode, raw[d], ns[d]) ELSE raw[d]] ELSE raw
           fill == \E d \in DOMAIN ns : j[d] < 0
       IN /\ (c.op # "pad" => inside)
          /\ IF fill THEN ~go.valid[kk] /\ (so.vx => go.arr[kk] = ZeroVec(so.nv))
             ELSE /\ go.valid[kk] = At(ns, so.valid, j)
-                 /\ so.vx => go.arr[kk] = (IF c.op = "rotate90" /\ so.nv > 1
-                                           THEN RotVec(At(ns, so.arr, j), CompAt(so, rs.dims, c.a.a), CompAt(so, rs.dims, c.a.b), c.a.k)
-                                           ELSE At(ns, so.arr, j))
+                 /\ so.vx => go.arr[kk] = (IF c.op = "rotate90" /\ so.nv > 1 THEN RotVec(At(ns, so.arr, j), ca, cb, c.a.k) ELSE At(ns, so.arr, j))
 P_PositionsKept(h, rts, h2, rts2, c) ==
    (OkStep(c) /\ (c.op \in SelOps \/ (c.op = "rotate90" /\ c.tg = "self" /\ IsF(h, rts[c.x])))) =>
       LET f == rts[c.x]
@@ -664,6 +595,111 @@ StepAll(h, rts, h2, rts2, c) ==
    /\ P_Persist(h, rts, h2, rts2, c) /\ P_InplaceEqualsCopy(h, rts, h2, rts2, c) /\ P_InplaceReturnsSelf(h, rts, h2, rts2, c)
    /\ P_AffineExact(h, rts, h2, rts2, c)
 
+
+(* the step clauses as a set of names of those that fail: `viol` holds it for the last call, so that every   *)
+(* clause is also a plain state invariant (TLC evaluates unprimed operator applications much faster)          *)
+ClauseNames == {"DF_RejectUnchanged", "DF_OperandsUnchanged", "DF_ValidityRule", "DF_SetValid", "DF_Update", "DF_Cellwise",
+                "DF_PositionsKept", "DF_CellAligned", "DF_SelSubregions", "DF_Persist", "DF_InplaceEqualsCopy",
+                "DF_InplaceReturnsSelf", "DF_AffineExact"}
+ClauseHolds(nm, h, rts, h2, rts2, c) ==
+   CASE nm = "DF_RejectUnchanged"    -> P_RejectUnchanged(h, rts, h2, rts2, c)
+     [] nm = "DF_OperandsUnchanged"  -> P_OperandsUnchanged(h, rts, h2, rts2, c)
+     [] nm = "DF_ValidityRule"       -> P_ValidityRule(h, rts, h2, rts2, c)
+     [] nm = "DF_SetValid"           -> P_SetValid(h, rts, h2, rts2, c)
+     [] nm = "DF_Update"             -> P_Update(h, rts, h2, rts2, c)
+     [] nm = "DF_Cellwise"           -> P_Cellwise(h, rts, h2, rts2, c)
+     [] nm = "DF_PositionsKept"      -> P_PositionsKept(h, rts, h2, rts2, c)
+     [] nm = "DF_CellAligned"        -> P_CellAligned(h, rts, h2, rts2, c)
+     [] nm = "DF_SelSubregions"      -> P_SelSubregions(h, rts, h2, rts2, c)
+     [] nm = "DF_Persist"            -> P_Persist(h, rts, h2, rts2, c)
+     [] nm = "DF_InplaceEqualsCopy"  -> P_InplaceEqualsCopy(h, rts, h2, rts2, c)
+     [] nm = "DF_InplaceReturnsSelf" -> P_InplaceReturnsSelf(h, rts, h2, rts2, c)
+     [] nm = "DF_AffineExact"        -> P_AffineExact(h, rts, h2, rts2, c)
+Failed(h, rts, h2, rts2, c) == {nm \in ClauseNames : ~ClauseHolds(nm, h, rts, h2, rts2, c)}
+
+(* ---- the actions: one named action per public call ------------------------------------------- *)
+En(name) == name \in Acts /\ Len(hist) <= MaxDepth
+Do(c) == /\ InModel(heap, roots, c)
+         /\ \E r \in {TLCEval(Apply(heap, roots, c))} :       \* evaluated once, eagerly (TLC keeps function constructors lazy)
+               /\ heap' = r.heap
+               /\ roots' = r.roots
+               /\ hist' = Append(hist, Done(c, r.outcome))
+               /\ viol' = Failed(heap, roots, r.heap, r.roots, Done(c, r.outcome))
+         /\ AliasGuard'
+FR0 == FieldRoots(heap, roots)
+NDx(x) == Len(FN(heap, roots[x]))
+GeoVars == DOMAIN roots
+TgND(x, tg) == RegND(OwnRegion(heap, Target(heap, roots, x, tg)))
+CopyDst(x, tg) == LET t == Target(heap, roots, x, tg) IN IF IsR(heap, t) THEN {"r"} ELSE IF IsM(heap, t) THEN {"m"} ELSE Dsts(roots, x)
+Tgs(x) == IF IsF(heap, roots[x]) THEN (IF Rich THEN {"mesh", "region"} ELSE {"mesh"})
+          ELSE IF IsM(heap, roots[x]) THEN (IF Rich THEN {"self", "region"} ELSE {"self"}) ELSE {"self"}
+PlaneIdx(n) == IF Rich THEN 0 .. (n - 1) ELSE {n - 1}
+RangeIdx(n) == IF Rich THEN {p \in (0 .. (n - 1)) \X (0 .. (n - 1)) : p[1] <= p[2] /\ p[2] - p[1] + 1 < n}
+               ELSE IF n > 1 THEN {<<1, n - 1>>} ELSE {}
+
+Translate == En("Translate") /\ \E x \in GeoVars : \E tg \in Tgs(x), v \in TransVs, ip \in BOOLEAN : \E dst \in (IF ip THEN {x} ELSE CopyDst(x, tg)) :
+                Do(MkCall("translate", x, "", dst, tg, ip, [v |-> Cut(v, TgND(x, tg))]))
+Scale     == En("Scale") /\ \E x \in GeoVars : \E tg \in Tgs(x), s \in ScaleFs, ip \in BOOLEAN : \E dst \in (IF ip THEN {x} ELSE CopyDst(x, tg)) :
+                Do(MkCall("scale", x, "", dst, tg, ip, [s |-> Cut(s, TgND(x, tg)), ref |-> <<>>]))
+AxisPairs(nd) == {p \in RotPairs : p[1] <= nd /\ p[2] <= nd /\ p[1] # p[2]}
+MeshRotate90 == En("MeshRotate90") /\ \E x \in GeoVars : \E tg \in Tgs(x), k \in RotKs, ip \in BOOLEAN : \E dst \in (IF ip THEN {x} ELSE CopyDst(x, tg)) :
+                \E p \in AxisPairs(TgND(x, tg)) :
+                   Do(MkCall("rotate90", x, "", dst, tg, ip, [a |-> p[1], b |-> p[2], k |-> k, ref |-> <<>>]))
+FieldRotate90 == En("FieldRotate90") /\ \E x \in FR0 : \E k \in RotKs, ref \in RotRefs, ip \in BOOLEAN : \E dst \in (IF ip THEN {x} ELSE Dsts(roots, x)) :
+                \E p \in AxisPairs(NDx(x)) :
+                   Do(MkCall("rotate90", x, "", dst, "self", ip, [a |-> p[1], b |-> p[2], k |-> k, ref |-> Cut(ref, NDx(x))]))
+MkField   == En("MkField") /\ \E x \in DOMAIN roots : IsM(heap, roots[x]) /\ \E nv \in {1, Len(heap[roots[x]].n)}, dst \in Dsts(roots, "f") :
+                Do(MkCall("mkfield", x, "", dst, "self", FALSE, [nv |-> nv, p |-> 3]))
+Neg       == En("Neg") /\ \E x \in FR0 : \E dst \in Dsts(roots, x) : Do(MkCall("neg", x, "", dst, "self", FALSE, NoA))
+(* `+f` is modelled with f = +f only: whether the library returns the operand itself (documented; known *)
+(* finding of C08) or a copy is then not observable in the object graph                                 *)
+Pos       == En("Pos") /\ \E x \in FR0 : Do(MkCall("pos", x, "", x, "self", FALSE, NoA))
+Abs_      == En("Abs") /\ \E x \in FR0 : \E dst \in Dsts(roots, x) : Do(MkCall("abs", x, "", dst, "self", FALSE, NoA))
+Add       == En("Add") /\ \E x \in FR0, y \in FR0 : \E dst \in Dsts(roots, x) : Do(MkCall("add", x, y, dst, "self", FALSE, NoA))
+Mul       == En("Mul") /\ \E x \in FR0, y \in FR0 : \E dst \in Dsts(roots, x) : Do(MkCall("mul", x, y, dst, "self", FALSE, NoA))
+MulNum    == En("MulNum") /\ \E x \in FR0, cc \in Nums : \E dst \in Dsts(roots, x) : Do(MkCall("mulnum", x, "", dst, "self", FALSE, [c |-> cc]))
+Comp      == En("Comp") /\ \E x \in FR0 : \E cc \in 1 .. heap[roots[x]].nv, dst \in Dsts(roots, x) : Do(MkCall("comp", x, "", dst, "self", FALSE, [c |-> cc]))
+LShift    == En("LShift") /\ \E x \in FR0, y \in FR0 : \E dst \in Dsts(roots, x) : Do(MkCall("lshift", x, y, dst, "self", FALSE, NoA))
+Diff      == En("Diff") /\ \E x \in FR0 : \E d \in 1 .. NDx(x), dst \in Dsts(roots, x) : Do(MkCall("diff", x, "", dst, "self", FALSE, [d |-> d]))
+SetValidArray == En("SetValidArray") /\ \E x \in FR0, b \in Masks : Do(MkCall("setvalid", x, "", x, "self", TRUE, [kind |-> "array", mask |-> MaskOf(b, Len(heap[roots[x]].valid))]))
+SetValidNorm  == En("SetValidNorm") /\ \E x \in FR0 : Do(MkCall("setvalid", x, "", x, "self", TRUE, [kind |-> "norm", mask |-> <<>>]))
+SetValidNone  == En("SetValidNone") /\ \E x \in FR0 : Do(MkCall("setvalid", x, "", x, "self", TRUE, [kind |-> "none", mask |-> <<>>]))
+MutateValid   == En("MutateValid") /\ \E x \in FR0 : \E k \in (IF Rich THEN {1, Len(heap[roots[x]].valid)} ELSE {1}) : Do(MkCall("mutatevalid", x, "", x, "self", TRUE, [cell |-> k]))
+UpdateConst   == En("UpdateConst") /\ \E x \in FR0, cc \in Nums : Do(MkCall("updateconst", x, "", x, "self", TRUE, [c |-> cc]))
+SetArray      == En("SetArray") /\ \E x \in FR0 : Do(MkCall("setarray", x, "", x, "self", TRUE, [p |-> 5]))
+SelPlane  == En("SelPlane") /\ \E x \in FR0 : \E d \in 1 .. NDx(x), dst \in Dsts(roots, x) : \E j \in PlaneIdx(FN(heap, roots[x])[d]) :
+                Do(MkCall("selplane", x, "", dst, "self", FALSE, [d |-> d, j |-> j]))
+SelRange  == En("SelRange") /\ \E x \in FR0 : \E d \in 1 .. NDx(x), dst \in Dsts(roots, x) : \E p \in RangeIdx(FN(heap, roots[x])[d]) :
+                Do(MkCall("selrange", x, "", dst, "self", FALSE, [d |-> d, j1 |-> p[1], j2 |-> p[2]]))
+GetSub    == En("GetSub") /\ \E x \in FR0 : \E s \in DOMAIN FM(heap, roots[x]).sub, dst \in Dsts(roots, x) :
+                Do(MkCall("getsub", x, "", dst, "self", FALSE, [s |-> s]))
+(* blocks: the first cell, the last cell, everything but the first layer of every axis *)
+Blocks(n) == {<<[d \in DOMAIN n |-> IF n[d] > 1 THEN 1 ELSE 0], [d \in DOMAIN n |-> n[d] - 1]>>}
+             \cup (IF Rich THEN {<<[d \in DOMAIN n |-> 0], [d \in DOMAIN n |-> 0]>>, <<[d \in DOMAIN n |-> n[d] - 1], [d \in DOMAIN n |-> n[d] - 1]>>} ELSE {})
+GetRegion == En("GetRegion") /\ \E x \in FR0 : \E bl \in Blocks(FN(heap, roots[x])), dst \in Dsts(roots, x) :
+                Do(MkCall("getregion", x, "", dst, "self", FALSE, [a |-> bl[1], b |-> bl[2]]))
+Pad       == En("Pad") /\ \E x \in FR0 : \E d \in 1 .. NDx(x), ps \in PadSpecs, dst \in Dsts(roots, x) :
+                /\ ProdSeq(FN(heap, roots[x])) <= 12
+                /\ Do(MkCall("pad", x, "", dst, "self", FALSE, [d |-> d, l |-> ps[1], r |-> ps[2], mode |-> ps[3]]))
+Resample  == En("Resample") /\ \E x \in FR0 : \E dst \in Dsts(roots, x) : Do(MkCall("resample", x, "", dst, "self", FALSE, [n |-> FN(heap, roots[x])]))
+H5        == En("H5") /\ \E x \in FR0 : \E dst \in Dsts(roots, x) : Do(MkCall("h5", x, "", dst, "self", FALSE, NoA))
+Ovf       == En("Ovf") /\ \E x \in FR0 : \E dst \in Dsts(roots, x) : Do(MkCall("ovf", x, "", dst, "self", FALSE, NoA))
+Vtk       == En("Vtk") /\ \E x \in FR0 : \E dst \in Dsts(roots, x) : Do(MkCall("vtk", x, "", dst, "self", FALSE, NoA))
+Xarray    == En("Xarray") /\ \E x \in FR0 : \E dst \in Dsts(roots, x) : Do(MkCall("xarray", x, "", dst, "self", FALSE, NoA))
+
+Init == \E sc \in Scenarios :
+          /\ heap = ScenarioHeap(sc).h
+          /\ roots = ScenarioHeap(sc).r
+          /\ hist = <<Done(MkCall("init", sc, "", "", "self", FALSE, NoA), "ok")>>
+          /\ viol = {}
+Next == \/ Translate \/ Scale \/ MeshRotate90 \/ FieldRotate90 \/ MkField
+        \/ Neg \/ Pos \/ Abs_ \/ Add \/ Mul \/ MulNum \/ Comp \/ LShift \/ Diff
+        \/ SetValidArray \/ SetValidNorm \/ SetValidNone \/ MutateValid \/ UpdateConst \/ SetArray
+        \/ SelPlane \/ SelRange \/ GetSub \/ GetRegion \/ Pad \/ Resample
+        \/ H5 \/ Ovf \/ Vtk \/ Xarray
+Spec == Init /\ [][Next]_vars
+DF_Depth == TLCGet("level") <= MaxDepth + 2
+
 DF_RejectUnchanged    == [][P_RejectUnchanged(heap, roots, heap', roots', Last')]_vars
 DF_OperandsUnchanged  == [][P_OperandsUnchanged(heap, roots, heap', roots', Last')]_vars
 DF_ValidityRule       == [][P_ValidityRule(heap, roots, heap', roots', Last')]_vars
@@ -677,4 +713,18 @@ DF_Persist            == [][P_Persist(heap, roots, heap', roots', Last')]_vars
 DF_InplaceEqualsCopy  == [][P_InplaceEqualsCopy(heap, roots, heap', roots', Last')]_vars
 DF_InplaceReturnsSelf == [][P_InplaceReturnsSelf(heap, roots, heap', roots', Last')]_vars
 DF_AffineExact        == [][P_AffineExact(heap, roots, heap', roots', Last')]_vars
+(* the same clauses as state invariants over `viol` *)
+DF_RejectUnchanged_S    == "DF_RejectUnchanged" \notin viol
+DF_OperandsUnchanged_S  == "DF_OperandsUnchanged" \notin viol
+DF_ValidityRule_S       == "DF_ValidityRule" \notin viol
+DF_SetValid_S           == "DF_SetValid" \notin viol
+DF_Update_S             == "DF_Update" \notin viol
+DF_Cellwise_S           == "DF_Cellwise" \notin viol
+DF_PositionsKept_S      == "DF_PositionsKept" \notin viol
+DF_CellAligned_S        == "DF_CellAligned" \notin viol
+DF_SelSubregions_S      == "DF_SelSubregions" \notin viol
+DF_Persist_S            == "DF_Persist" \notin viol
+DF_InplaceEqualsCopy_S  == "DF_InplaceEqualsCopy" \notin viol
+DF_InplaceReturnsSelf_S == "DF_InplaceReturnsSelf" \notin viol
+DF_AffineExact_S        == "DF_AffineExact" \notin viol
 =============================================================================
